@@ -22,6 +22,8 @@ stream and of every phase view handed out so far, prefixed by `err=<Class> ` whe
   wview <h> <i> <x>       h.imol[chem_i] = x         wpar <k> <p|-> <i> <x>   s_k.imol[p, chem_i] = x
   wT|wP <k> <x>           s_k.T / s_k.P = x          wvT|wvP <h> <x>          the same through a view
   vphase <h> <p>          h.phase = p                (the phase of a view is locked)
+  hphases <h> <p1,..>     h.phases = (...)           hvle|hlle|hsle <h>   h.vle / h.lle / h.sle   (conversions asked of a view)
+  iter <k>                list(s_k)                  (MultiStream.__iter__: the view of every phase, registered as handles)
   save <k>                snapshots.append(s_k.get_data())
   restore <k> <n>         s_k.set_data(snapshots[n])
   unlink <k>              s_k.unlink()
@@ -46,6 +48,9 @@ Property oracle (real objects only), failure signatures:
                                          (a proxy after one of the two re-seated its data)
   stale-solver[:<op>]                    the VLE/LLE/SLE cache (or the solver an accessor returned) of a MultiStream is not
                                          bound to the stream's current indexer / thermal condition / package
+  view-converted                         a conversion asked of a phase view changed its class or detached it from its parent
+  iter/not-the-views, view/alias-refused iteration does not yield the phase views; Stream[label in the other case] refused
+  mass-view/<what>                       the stream's own mass accessor / F_mass disagrees with its molar flows (stale _data_cache)
   restore/raises, restore/mismatch       set_data of a snapshot raised / did not reproduce what get_data saw
   <op>/contents-changed                  view, save, T/P writes, a (refused) view.phase assignment, unlink or
                                          _reset_thermo changed flows/phases (unlink, thermo: also T, P)
@@ -84,6 +89,9 @@ ASSUMPTIONS = [
     'whose rows are linked to another indexer or under a cached case-alias key, _reset_thermo of a stream that has '
     'a proxy, copy_like/mix_from between streams that share rows but belong to different packages',
     'property packages 0,1,2 hold the same chemicals in the same order; mix_from is used with energy_balance=False',
+    'a conversion asked of a phase view (view.phases = two or more labels, view.vle/.lle/.sle) is modelled WITH patch '
+    'fixes_proposed/C12-10 (refused: the phase of a view is locked); view.copy_like(multi) / view.set_data(multi snapshot) '
+    'and one-phase MultiStreams (MultiStream(phases=(p,)) and its set_data branch) are not modelled and never generated',
     'invalid phase letters and empty phase sets are not generated',
 ]
 TRUSTED = ['Lean 4.33 kernel', 'correspondence harness harness/props/c12.py + Driver/C12.lean',
@@ -276,12 +284,16 @@ class Universe:
                         kw[p] = [(c, float(Fraction(v))) for c, v in zip(CHEMS, vals.split(','))]
                 S.append(tmo.MultiStream(None, phases=phases, T=T, P=P, thermo=THERMOS[0], **kw))
             return
-        if op in ('wview', 'wvT', 'wvP', 'vphase'):
+        if op in ('wview', 'wvT', 'wvP', 'vphase', 'hphases', 'hvle', 'hlle', 'hsle'):
             h = self.handles[int(t[1])]
             if op == 'wview': h.imol[CHEMS[int(t[2])]] = float(Fraction(t[3]))
             elif op == 'wvT': h.T = float(Fraction(t[2]))
             elif op == 'wvP': h.P = float(Fraction(t[2]))
-            else: h.phase = t[2]
+            elif op == 'vphase': h.phase = t[2]
+            elif op == 'hphases': h.phases = tuple(t[2].split(','))
+            elif op == 'hvle': h.vle
+            elif op == 'hlle': h.lle
+            else: h.sle
             return
         s = S[int(t[1])]
         if op == 'sphases':
@@ -311,6 +323,10 @@ class Universe:
             v = s[t[2]]
             if not any(h is v for h in self.handles) and not any(v is x for x in S):
                 self.handles.append(v)
+        elif op == 'iter':
+            for v in list(s):
+                if not any(h is v for h in self.handles) and not any(v is x for x in S):
+                    self.handles.append(v)
         elif op == 'wpar':
             if t[2] == '-':
                 s.imol[CHEMS[int(t[3])]] = float(Fraction(t[4]))
@@ -522,6 +538,36 @@ class Universe:
             return 'the solver returned by the accessor works on another indexer / thermal condition than the stream'
         return None
 
+    def probe_mass(self, k, ci=0):
+        """The stream's own derived accessors must follow its molar data: imass by phase, F_mass, and a write through
+        imass must land in imol (exact restore afterwards).  Tolerance 1e-9 (molecular weights are not dyadic)."""
+        s = self.S[k]
+        c = CHEMS[ci % N]
+        mw = float(getattr(s.chemicals, c).MW)
+        mws = [float(getattr(s.chemicals, x).MW) for x in CHEMS]
+        def close(a, b): return abs(a - b) <= 1e-9 * max(1.0, abs(a), abs(b))
+        multi = type(s) is tmo.MultiStream
+        keys = [(p, c) for p in s.phases] if multi else [c]
+        total = 0.0
+        for p in (s.phases if multi else [None]):
+            for x, m in zip(CHEMS, mws):
+                total += float(s.imol[p, x] if multi else s.imol[x]) * m
+        try:
+            if not close(float(s.F_mass), total):
+                return 'F_mass', f'F_mass is {float(s.F_mass)} where the molar flows weigh {total}'
+            for key in keys:
+                mol = float(s.imol[key])
+                if not close(float(s.imass[key]), mol * mw):
+                    return 'read', f'imass[{key}] is {float(s.imass[key])} where imol gives {mol * mw} kg/hr'
+                s.imass[key] = (mol + 2.0) * mw
+                back = float(s.imol[key])
+                s.imol[key] = mol
+                if not close(back, mol + 2.0):
+                    return 'write', f'a write through imass[{key}] did not reach imol (imol shows {back}, expected {mol + 2.0})'
+        except Exception as e:
+            return 'raises', f'the mass accessor raised {type(e).__name__}: {e}'
+        return None
+
     def dict_shared(self, k):
         d = getattr(self.S[k], '_streams', None)
         return d is not None and any(getattr(o, '_streams', None) is d for j, o in enumerate(self.S) if j != k)
@@ -533,7 +579,7 @@ def opkind(line):
 
 def optarget(line):
     t = line.split(' ')
-    if t[0] in ('new', 'chems', 'wview', 'wvT', 'wvP', 'vphase'): return None
+    if t[0] in ('new', 'chems', 'wview', 'wvT', 'wvP', 'vphase', 'hphases', 'hvle', 'hlle', 'hsle'): return None
     try: return int(t[1])
     except Exception: return None
 
@@ -544,6 +590,7 @@ def run_ops(ops):
     interesting = False
     stale_reported = False
     solver_reported = False
+    mass_reported = False
     for i, line in enumerate(ops):
         if dead:
             outs.append('dead'); continue
@@ -604,6 +651,33 @@ def run_ops(ops):
             interesting = True
         if op in RESEATING and err is None and had_views:
             interesting = True
+        if valid_k and op == 'iter' and err is None and post is not None:
+            s_ = U.S[k]
+            subs = list(s_)
+            if type(s_) is tmo.MultiStream:
+                if len(subs) != len(s_.phases) or not all(v is s_[p] for v, p in zip(subs, s_.phases)):
+                    fail('iter/not-the-views', f'`{line}`: iterating the MultiStream does not yield its phase views s[p]')
+            elif not (len(subs) == 1 and subs[0] is s_):
+                fail('iter/not-the-views', f'`{line}`: iterating a single-phase stream does not yield the stream itself')
+        if valid_k and op == 'view' and pre is not None and pre[0] == 'S':
+            p_ = line.split(' ')[2]
+            if p_.lower() == pre[1][0].lower() and err is not None:
+                fail('view/alias-refused', f'`{line}` raised {err}: a single-phase {pre[1][0]!r} stream refuses its own label in the other case')
+        if op in ('hphases', 'hvle', 'hlle', 'hsle'):
+            try:
+                h = U.handles[int(line.split(' ')[1])]
+                if type(h) is not tmo.Stream or not isinstance(h._imol._phase, tmo._phase.LockedPhase):
+                    fail('view-converted', f'`{line}` turned the phase view into a {type(h).__name__} detached from its parent '
+                                           f'(a later parent.phases = ... then leaves it unusable)')
+            except IndexError:
+                pass
+        if not mass_reported:
+            for j in range(len(U.S)):
+                w = U.probe_mass(j, i)
+                if w:
+                    mass_reported = True
+                    fail('mass-view/' + w[0], f'after `{line}`, stream {j}: {w[1]}')
+                    break
         if not solver_reported:
             for j in range(len(U.S)):
                 w = U.probe_solvers(j, U.solver if (valid_k and j == k and err is None) else None)
@@ -613,7 +687,10 @@ def run_ops(ops):
                     break
         if not stale_reported:
             for j in range(len(U.S)):
-                w = U.probe_views(j, i)
+                try:
+                    w = U.probe_views(j, i)
+                except Exception as e:      # a view that is no longer a single-phase stream over the parent's row
+                    w = f'probing the cached views raised {type(e).__name__}: {e}'
                 if w:
                     stale_reported = True
                     fail('stale-view/shared-dict' if U.dict_shared(j) else 'stale-view', f'after `{line}`, stream {j}: {w}')
@@ -640,7 +717,7 @@ def _has_cancelling(state):
 
 def run_impl(case: Case) -> ImplResult:
     U, outs, failures, interesting = run_ops(case.ops)
-    tags = sorted({opkind(l) for l in case.ops})
+    tags = sorted({opkind(l) for l, o in zip(case.ops, outs) if o != 'dead' and not o.startswith('err=')})
     tags += sorted({'err:' + o.split(' ')[0][4:] for o in outs if o.startswith('err=')})
     for l, o in zip(case.ops, outs):
         if opkind(l) in CONVERSIONS and not o.startswith('err=') and o != 'dead':
@@ -648,6 +725,7 @@ def run_impl(case: Case) -> ImplResult:
         t = l.split(' ')
         if t[0] == 'sphases': tags.append('form:' + (t[3] if len(t) > 3 else 'tuple'))
         if t[0] == 'chems': tags.append('chems:' + t[1])
+        if t[0] in ('hphases', 'hvle', 'hlle', 'hsle') and o != 'dead': tags.append('asked-of-view:' + t[0] + (':refused' if o.startswith('err=') else ':accepted'))
         if t[0] in ('new', 'wpar', 'wview') and any(x.startswith('-') and len(x) > 1
                                                      for x in t[-1].replace(';', ',').replace(':', ',').split(',')):
             tags.append('input:negative-flow')
@@ -807,13 +885,23 @@ def gen_op(rng, U):
     multis = [j for j in range(nS) if U.kind(j) == 'M']
     kinds = ['sphases', 'sphase', 'reduce', 'asstream', 'vle', 'lle', 'sle', 'view', 'wview', 'wpar',
              'wT', 'wP', 'wvT', 'wvP', 'save', 'restore', 'empty', 'vphase',
-             'unlink', 'link', 'copylike', 'mix', 'thermo', 'proxy', 'new']
+             'unlink', 'link', 'copylike', 'mix', 'thermo', 'proxy', 'new', 'hconv', 'iter']
     hv = 1 if U.handles else 0
-    w = [14, 5, 4, 3, 3, 3, 3, 16 if kd == 'M' else 0, 8 * hv, 12,
+    w = [14, 5, 4, 3, 3, 3, 3, 16 if kd == 'M' else 2, 8 * hv, 12,
          3, 2, 3 * hv, 1 * hv, 5, 7 if U.snaps else 0, 1, 1 * hv,
-         6, 7 if len(multis) >= 2 and kd == 'M' else 0, 8, 7, 4, (2 if nS < 5 else 0), (1 if nS < 4 else 0)]
+         6, 7 if len(multis) >= 2 and kd == 'M' else 0, 8, 7, 4, (2 if nS < 5 else 0), (1 if nS < 4 else 0),
+         4 * hv, 3]
     op = rng.choices(kinds, w)[0]
     if op == 'new': return gen_new(rng)
+    if op == 'iter': return f'iter {k}'
+    if op == 'hconv':
+        h = rng.randrange(len(U.handles))
+        r = rng.random()
+        if r < 0.45:
+            own = U.handles[h].phase if type(U.handles[h]) is tmo.Stream and U.handles[h].phase in PHASES else 'l'
+            labels = [own] if rng.random() < 0.3 else sorted(rng.sample(PHASES, rng.choice([1, 2, 2, 3])))
+            return f'hphases {h} ' + ','.join(labels)
+        return rng.choice(['hvle', 'hlle', 'hsle']) + f' {h}'
     if op == 'sphases':
         labels = gen_target(rng, U, k)
         form = rng.choice(['tuple', 'tuple', 'list', 'set', 'str', 'gen'])
@@ -851,7 +939,8 @@ def gen_op(rng, U):
     if op == 'restore': return f'restore {k} {rng.randrange(len(U.snaps))}'
     if op == 'vphase':
         h = rng.randrange(len(U.handles))
-        return f'vphase {h} {U.handles[h].phase if rng.random() < 0.4 else rng.choice(PHASES)}'
+        own = U.handles[h].phase if type(U.handles[h]) is tmo.Stream and U.handles[h].phase in PHASES else rng.choice(PHASES)
+        return f'vphase {h} {own if rng.random() < 0.4 else rng.choice(PHASES)}'
     if op == 'link':
         cands = [j for j in multis if j != k and U.S[j].phases == s.phases]
         if not cands:
@@ -987,6 +1076,13 @@ def corpus():
         Case(['chems 4', 'new M g,l 300 101325 l:4,0,1,-1;g:0,2,0,0', 'new S s 310 90000 0,0,0,5', 'view 0 l', 'mix 0 0,1', 'copylike 1 0',
               'sphases 1 g,l gen']),
         Case(['chems 2', 'new S l 300 101325 1,-1', 'vle 0', 'reduce 0', 'lle 0', 'asstream 0']),
+        # a conversion asked of a phase view is refused (its phase is locked); the view stays attached (C12-10)
+        Case(['new M g,l 300 101325 l:10,0,0;g:0,2,0', 'view 0 l', 'hvle 0', 'wpar 0 l 0 5', 'sphases 0 g,l,s', 'hphases 0 g,l',
+              'hphases 0 l', 'hphases 0 g', 'hlle 0', 'hsle 0', 'wview 0 1 3']),
+        # sub-streams obtained by iteration are the cached views
+        Case(['new M g,l,s 300 101325 l:4,0,0;s:0,1,0', 'iter 0', 'sphases 0 g,l', 'wview 1 0 3', 'iter 0', 'wvT 0 350']),
+        # indexing a single-phase stream: its own label in either case answers the stream itself
+        Case(['new S l 300 101325 1,0,0', 'view 0 L', 'view 0 l', 'view 0 g', 'iter 0', 'new S S 300 101325 0,1,0', 'view 1 s']),
         # unlink after a link: the views follow the stream to its own copy (4329d3a)
         Case(['new M g,l 300 101325 l:4,0,0;g:0,2,0', 'new M g,l 350 90000 l:1,0,0', 'view 0 l', 'link 0 1 1 1', 'unlink 0',
               'wpar 0 l 0 7', 'wT 0 333']),
